@@ -421,7 +421,10 @@ pub fn run(args: &Args, report: &mut Report) {
                 _ => vec![Cmd::Progress, Cmd::Wait(1)],
             };
             report.eval();
-            let log = par::run(&spec_of(&c));
+            // the interpreter is several thousand times slower than the host clock the final wait is measured on
+            let mut spec = spec_of(&c);
+            spec.final_wait_ms = 1_800_000;
+            let log = par::run(&spec);
             let mut h = Fnv::new();
             h.str("miri").u64(i);
             report.nontrivial(h.finish());
